@@ -301,14 +301,22 @@ def server_factory(run):
         op = all_ops.get(call["op"])
         if op is None:
             return {"code": "INTERNAL"}
-        sm = run.world.rpc.get(call["path"])
-        if sm is None:
-            return {"code": "UNIMPLEMENTED"}
-        _, m, _ = sm
+        if call.get("tr") == "rest":
+            _, _, m = find_method(run.world.spec, op["service"], op["method"])
+        else:
+            sm = run.world.rpc.get(call["path"])
+            if sm is None:
+                return {"code": "UNIMPLEMENTED"}
+            _, m, _ = sm
         if not op.get("pages"):
-            return {"lat": 0.0, "reply": values.to_dynamic(codec, m["output"], op.get("reply") or {}).SerializeToString(deterministic=True)}
-        req = codec.parse(m["input"], bytes.fromhex(call["reqs"][0]))
-        tok = getattr(req, "page_token", "")
+            return {"lat": 0.0, "msg": values.to_dynamic(codec, m["output"], op.get("reply") or {})}
+        if call.get("tr") == "rest":
+            import urllib.parse as _up
+            q = dict(_up.parse_qsl(_up.urlsplit(call["url"]).query, keep_blank_values=True))
+            tok = q.get("pageToken", "")
+        else:
+            req = codec.parse(m["input"], bytes.fromhex(call["reqs"][0]))
+            tok = getattr(req, "page_token", "")
         st = state.setdefault(op["id"], {"tries": {}, "served": {}})
         index = {(op["request"].get("page_token") or ""): 0}
         for i, p in enumerate(op["pages"][:-1]):
@@ -327,8 +335,7 @@ def server_factory(run):
             run.sim.ev("server_refetch", op=op["id"], page=i)
             return {"code": "FAILED_PRECONDITION"}
         run.sim.ev("server_page", op=op["id"], page=i)
-        return {"lat": op.get("lat", 0.0),
-                "reply": values.to_dynamic(codec, m["output"], op["pages"][i]).SerializeToString(deterministic=True)}
+        return {"lat": op.get("lat", 0.0), "msg": values.to_dynamic(codec, m["output"], op["pages"][i])}
     return serve
 
 
